@@ -69,6 +69,15 @@ def run(chk):
         gm = [c for c in core.desc_calls(recv_d) if c[1].endswith("HashMap::<K, V, S, A>::get_mut") and on_streams(c[2][0])]
         chk.ob("R3.polled_from_streams", fn, "messages are polled only from entries of self.streams", bool(gm), f"receiver {panics.short_desc(recv_d)}", where=b.where(rb))
         key = gm[0][2][1] if gm else None
+        # every registered stream is polled on every round, whatever handlers are set: closes, pings and pongs are only seen by polling
+        hand = []
+        for s_, lab, gd, info in core.guards_dominating(prog, b, rb):
+            for n_ in ("on_message", "on_connect", "on_disconnect"):
+                if isinstance(gd, tuple) and desc_contains(gd, lambda y: y[0] == "field" and y[2] == ix[n_] and isinstance(y[1], tuple) and y[1][0] == "param"):
+                    hand.append((n_, lab))
+        chk.ob("R1.poll_unconditional", fn, "the poll of a stream does not depend on which handlers are registered", not hand,
+               f"recv_nonblocking runs only under {hand}: an app without that handler never reads its streams (a clean close is never reported, pongs are "
+               "never seen, so every live client is timed out by the heartbeat)", where=b.where(rb))
         for (s, tgt) in some_edge_of(prog, b, rb, "Ok"):
             mex = [blk for blk, cl in execs.get("on_message", [])]
             w = core.must_pass(b, [tgt], recvs + core.return_blocks(b), through_nodes=mex, through_edges=unset.get("on_message", set()), after_from=False)
